@@ -7,8 +7,14 @@ A reference walk predicts, hop by hop, which file the statement says must run:
                               different loader is named), cwd, cwd/<pipelines>, built-in dir
    nothing there           -> PipelineNotFoundError naming the places searched
 and checks that custom step modules next to a file-loaded pipeline import, and that the
-pipeline's directory is on sys.path exactly once.  Hops whose caller was loaded by one of the
-custom test loaders are outside the statement: the walk stops there (no verdict)."""
+pipeline's directory is on sys.path exactly once.
+"The calling pipeline's directory" is what the calling pipeline's PipelineInfo records as its
+parent (for the file loader: the directory of the file — checked); whether it cascades by
+default is PipelineInfo.is_parent_cascading / is_loader_cascading (pipedef.py), and an explicit
+resolveFromParent on the pype step overrides that default in BOTH directions.  These three
+facts are read from the probe event of the calling pipeline, so children of pipelines loaded
+by the custom test loaders are judged by the same rule.  Only `loader: null` / '' (is that "a
+different loader"?) is left without a verdict."""
 import os
 
 from core import fail
@@ -44,6 +50,13 @@ class Walk:
         self.fails.append(fail(clause, msg, fp or clause))
 
     # -- the statement's candidate list for one request
+    def child_loader(self, call, caller):
+        if 'loader' in call:
+            return call['loader'] or FILE_LOADER
+        if caller is None:
+            return FILE_LOADER
+        return caller['loader'] if caller['lcasc'] else FILE_LOADER
+
     def candidates(self, call, caller):
         """-> (candidate files in the documented order, parent dir or None, why, parent text)"""
         name = sub(call['name'], CT)
@@ -55,13 +68,18 @@ class Walk:
                 p = sub(call['parent'], CT)
                 if truthy(p):
                     parent, ptext = resolve(self.cwd, p), p
-            elif 'resolve' in call and not call['resolve']:
-                why = 'resolveFromParent-false'
-            elif 'loader' in call and call['loader'] != FILE_LOADER:
-                why = 'different-loader'
             else:
-                why = 'parent-default'
-                parent = ptext = os.path.dirname(caller)
+                told = 'resolve' in call
+                rfp = bool(call['resolve']) if told else caller['pcasc']
+                if not rfp:
+                    why = 'resolveFromParent-false' if told else 'parent-not-cascading'
+                elif self.child_loader(call, caller) != caller['loader']:
+                    why = 'different-loader'
+                else:
+                    why = 'parent-default' if not told else 'resolveFromParent-true'
+                    if truthy(caller['parent']):
+                        ptext = caller['parent']
+                        parent = resolve(self.cwd, ptext)
         if fname.startswith('/'):
             return [fname], None, 'absolute', ptext
         order = ([parent] if parent else []) + [self.cwd, self.subd, self.blt]
@@ -76,13 +94,10 @@ class Walk:
             return e
         return None
 
-    def visit(self, call, caller, caller_loader):
-        """caller: canonical path of the calling pipeline file (None for the root);
-        caller_loader: loader that loaded the caller."""
+    def visit(self, call, caller):
+        """caller: None for the root, else what the probe of the calling pipeline recorded:
+        {file, loader, parent (text or None), lcasc, pcasc}."""
         if self.stopped or self.ended:
-            return
-        if caller is not None and caller_loader != FILE_LOADER:
-            self.stopped = True
             return
         if 'loader' in call and not call['loader'] and caller is not None:
             # `loader: null` / '' : the statement does not say whether that is "a different
@@ -93,7 +108,7 @@ class Walk:
         existing = [c for c in cands if c in self.files]
         expect = existing[0] if existing else None
         # loader that will load the child
-        child_loader = (call['loader'] or FILE_LOADER) if 'loader' in call else caller_loader
+        child_loader = self.child_loader(call, caller)
         name = sub(call['name'], CT)
         key = (child_loader, f'{pstr}+{name}' if pstr else name)
         collided = key in self.requests and self.requests[key] != (name, pstr)
@@ -108,7 +123,7 @@ class Walk:
                              'existing-not-found')
             return
         ev = self.next_f()
-        where = f'request {name!r} from {caller or "root"} ({why})'
+        where = f'request {name!r} from {caller["file"] if caller else "root"} ({why})'
         if expect is None:
             # nothing exists: must be a not-found error naming the places searched
             if ev is not None:
@@ -171,17 +186,19 @@ class Walk:
             elif why == 'absolute':
                 fp = 'absolute-only'
             elif ran not in cands:
-                if caller is not None and os.path.dirname(ran) == os.path.dirname(caller) \
-                        and why in ('resolveFromParent-false', 'explicit-parent', 'different-loader'):
+                if caller is not None and truthy(caller['parent']) \
+                        and os.path.dirname(ran) == resolve(self.cwd, caller['parent']) \
+                        and why in ('resolveFromParent-false', 'explicit-parent', 'different-loader',
+                                    'parent-not-cascading'):
                     fp = 'opt-out-ignored:' + why
                 else:
                     fp = 'outside-candidates'
-            elif why == 'parent-default' and parent and expect.startswith(parent + '/') \
-                    and not ran.startswith(parent + '/'):
-                fp = 'parent-first'
+            elif why in ('parent-default', 'resolveFromParent-true') and parent \
+                    and expect.startswith(parent + '/') and not ran.startswith(parent + '/'):
+                fp = 'parent-first' if why == 'parent-default' else 'resolveFromParent-true-ignored'
             else:
                 fp = 'not-first-existing'
-            self.failure('first-existing' if fp not in ('parent-first',) and not fp.startswith('opt-out')
+            self.failure('first-existing' if fp not in ('parent-first', 'resolveFromParent-true-ignored') and not fp.startswith('opt-out')
                          else 'child-resolution',
                          f'{where}: expected {expect} (first existing of {cands}) but {ran} ran', fp)
             self.stopped = True
@@ -191,7 +208,13 @@ class Walk:
             # loader recorded by the pipeline differs from the statement-level expectation
             self.failure('child-resolution', f'{where}: loaded by {ev[3]}, expected {child_loader}',
                          'loader-cascade')
+        info = {'file': expect, 'loader': ev[3], 'parent': ev[5] if ev[4] in ('P', 'S') and ev[5] else None,
+                'lcasc': ev[6] == 'true', 'pcasc': ev[7] == 'true'}
         if child_loader == FILE_LOADER:
+            if (ev[4], ev[5]) != ('P', os.path.dirname(expect)) or not (info['lcasc'] and info['pcasc']):
+                self.failure('child-resolution',
+                             f'{expect}: the file loader must record the pipeline\'s own directory as a '
+                             f'cascading parent, got {ev[4:8]}', 'file-info-parent')
             if ev[8] != expect:
                 self.failure('first-existing',
                              f'{where}: marker says {expect} but info.path is {ev[8]}', 'info-path')
@@ -230,7 +253,7 @@ class Walk:
                     self.ended = True
                     return
         for c in f.get('calls', []):
-            self.visit(c, expect, child_loader)
+            self.visit(c, info)
             if self.stopped or self.ended:
                 return
 
@@ -242,11 +265,10 @@ class Walk:
             self.failure('search-roots', f'search roots {env} differ from {want}', 'search-roots')
         if not self.obs.get('syspath_prefix_kept', True):
             self.failure('sys-path', 'pre-existing sys.path entries were changed', 'sys-path-prefix')
-        root_loader = inv.get('loader') or FILE_LOADER
         call = {'name': inv['name']}
         if inv.get('loader'):
             call['loader'] = inv['loader']
-        self.visit(call, None, root_loader)
+        self.visit(call, None)
         if not self.stopped and not self.ended:
             if self.next_f() is not None:
                 self.failure('first-existing', 'more pipelines ran than the layout calls for',
